@@ -9,7 +9,7 @@ cleanup() { git -C /repo worktree remove --force $WT; }
 cd $WT
 DEMODIR=$(python3 -c "import json;print(json.load(open('$S/meta.json'))['demo_dir'])")
 DEMODIR=${DEMODIR%/}; [ -z "$DEMODIR" ] && DEMODIR=.
-if ! patch -p1 -s --fuzz=3 < $S/patch.diff; then echo "$NAME: PATCH-DOES-NOT-APPLY"; cleanup; exit 8; fi
+if ! patch -p1 -s --fuzz=3 --no-backup-if-mismatch < $S/patch.diff; then echo "$NAME: PATCH-DOES-NOT-APPLY"; cleanup; exit 8; fi
 if ! go build ./... 2>/dev/null; then echo "$NAME: DOES-NOT-BUILD"; cleanup; exit 7; fi
 SUITE=pass; go test -vet=off -count=1 ./... >/tmp/confirm-$$.log 2>&1 || SUITE=FAIL
 if [ $SUITE = FAIL ]; then go test -vet=off -count=1 ./... >/tmp/confirm-$$.log 2>&1 && SUITE="pass(2nd run)"; fi
